@@ -233,8 +233,13 @@ def run(ctx):
         n2 = find_stmt("$$w -= $$w.max()", fp_.node, bb)
         u2 = find_stmt("$$u = log(random.rand(len($$w)))", fp_.node, bb)
         ok2 = False
-        if len(n2) == 1 and len(u2) == 1:
+        # one uniform per point of the batch: through a local or written into the comparison
+        a2 = []
+        if len(u2) == 1:
             a2 = find_stmt("$$a = $$w > $$u", fp_.node, {**bb, **u2[0][1]}) or find_stmt("$$a = $$w >= $$u", fp_.node, {**bb, **u2[0][1]})
+        elif not u2:
+            a2 = find_stmt("$$a = $$w > log(random.rand(len($$w)))", fp_.node, bb) or find_stmt("$$a = $$w >= log(random.rand(len($$w)))", fp_.node, bb)
+        if len(n2) == 1:
             ok2 = len(a2) == 1 and len(find_stmt("$$S[$lo:$hi] = $$x[$$a][:$$m]", fp_.node, {**bb, **a2[0][1]})) == 1
         ctx.ob("R-SIB", "C09.8", fp_, "FlowProposal (per-batch rejection): weights normalised by their maximum, one uniform per point, accepted rows of the same batch are copied into the pool", ok2, "")
         # accumulate-weights branch
@@ -244,10 +249,15 @@ def run(ctx):
         if len(cat) == 1 and len(catw) == 1:
             cc = {**cat[0][1], **catw[0][1]}
             kc = find_stmt("$$c = max(nanmax($$w), $$c)", fp_.node, {"w": bb["w"]})
-            acc3 = [b_ for n_, b_ in find_stmt("$$a = $$W - $$c > $$u", fp_.node, {"W": cc["W"]})]
             us3 = [b_ for n_, b_ in find_stmt("$$u = log(random.rand(len($$W)))", fp_.node, {"W": cc["W"]})]
+            if us3:
+                acc3 = [b_ for n_, b_ in find_stmt("$$a = $$W - $$c > $$u", fp_.node, {"W": cc["W"]})]
+                ok_u = len(us3) == len(acc3) and all(any(src(a_["u"]) == src(u_["u"]) for u_ in us3) for a_ in acc3)
+            else:
+                acc3 = [b_ for n_, b_ in find_stmt("$$a = $$W - $$c > log(random.rand(len($$W)))", fp_.node, {"W": cc["W"]})]
+                ok_u = True
             fin = find_stmt("self.x = $$S[$$a][:N]", fp_.node, {"S": cc["S"]})
-            ok3 = len(kc) == 1 and len(acc3) == 2 and len(us3) == 2 and all(src(a_["c"]) == src(kc[0][1]["c"]) for a_ in acc3) and len(fin) == 1
+            ok3 = len(kc) == 1 and len(acc3) == 2 and ok_u and all(src(a_["c"]) == src(kc[0][1]["c"]) for a_ in acc3) and len(fin) == 1
         ctx.ob("R-SIB", "C09.8", fp_, "FlowProposal (accumulated weights): points and weights are accumulated together, normalised by the running maximum, one uniform per accumulated point, and the pool is the accepted accumulated rows", ok3, "")
     ctx.floor("C09.8", 5)
 
@@ -263,6 +273,12 @@ def run(ctx):
     _pl = ctx.fn(_t.NS + ".populate_live_points")
     from ..pat import find_stmt as _fst
     ctx.ob("R-FIELDS", "C09.7", _pl, "the live array is allocated with the same canonical field order (names=self.model.names)", len(_fst("$$lp = empty_structured_array(self.nlive, names=self.model.names)", _pl.node)) == 1, "")
+    # positional views of caller-supplied arrays are only combined with scalars (their columns follow the caller's memory order)
+    from ..rules import fieldorder as _fo2
+    _pv = _fo2.positional_view_uses(prog)
+    ctx.require(len(_pv) >= 4, f"only {len(_pv)} uses of a positional view found (in_unit_hypercube / log_prior_unit_hypercube expected)")
+    for _f, _n, _ok, _why in _pv:
+        ctx.ob("R-FIELDS", "C09.7", _f, "a positional (memory-order) view of a structured array is combined only with scalars, never with a per-parameter array", _ok, _why, node=_n)
     ctx.floor("C09.7", 4)
     ctx.assumptions += ["model.new_point draws inside the prior bounds (user model contract)", "that the pool is *distributed* as the prior restricted to the contour is statistical and not decided; the x'-prior path of FlowProposal.populate is gated by rejection weights (a value-level argument)"]
 
